@@ -2,6 +2,7 @@ import Sbepp.Drive.Common
 import Sbepp.Spec.Observe
 import Sbepp.Spec.Encode
 import Sbepp.Gen.SizeFormula
+import Sbepp.Gen.HeaderFill
 
 namespace Sbepp.Drive.Wire
 open Sbepp Sbepp.Schema Sbepp.Observe
@@ -84,16 +85,6 @@ def decode (payload : String) : String :=
           | _, _ => "bad-op bad-value"
     | _, _, _ => "bad-op bad-request"
 
-/-- header bytes after `fill_message_header` on `prefill` -/
-def fillHeader (bo : ByteOrder) (s : SchemaDef) (m : NMessage) (nGroups nDatas : Nat) (buf : List Nat) : List Nat :=
-  let vals : List (String × Nat) :=
-    [("blockLength", match m.level with | .mk bl _ _ _ => bl), ("templateId", m.id), ("schemaId", s.id),
-     ("version", s.version), ("numGroups", nGroups), ("numVarDataFields", nDatas)]
-  vals.foldl (fun b (n, v) =>
-    match findLeaf m.hdrLeaves n with
-    | some l => writeAt b l.off (put bo l.size v)
-    | none => b) buf
-
 /-- `encode (req (schema ...) (msg NAME) (value (msg (hdr HEX) (root (lv ...)))) (prefill HEX))`
     → `expect=<hex> end=<n>`: the buffer an in-order encode of the value must produce -/
 def encode (payload : String) : String :=
@@ -112,7 +103,7 @@ def encode (payload : String) : String :=
           match (v.field? "root").bind (fun l => l.head?.bind parseLVal) with
           | some root =>
             let bo := s.byteOrder
-            let buf := fillHeader bo s m md.groups.length md.datas.length prefill
+            let buf := Gen.fillMessageHeader bo s m md.groups.length md.datas.length prefill
             let r := Spec.encL bo m.level.erase root buf m.hdrSize
             s!"expect={SExp.hex r.1} end={r.2}"
           | none => "bad-op bad-value"
